@@ -21,6 +21,12 @@ def parseMult : String → Option Bool
   | _ => none
 
 /-- `new START` · `proc A|N TAG M|S all` · `proc A|N TAG M|S take K` -/
+def smootherStepAll (legacy : Bool) (s : Option St) (k t m : String) : Option St × List String :=
+  match s, parseKind k, t.toNat?, parseMult m with
+  | some st, some kind, some tag, some mult =>
+    let (st', os) := processG legacy st ⟨kind, tag, mult⟩; (some st', [showOuts os])
+  | _, _, _, _ => (s, ["bad-op"])
+
 def smootherStep (legacy : Bool) (s : Option St) (toks : List String) : Option St × List String :=
   match toks with
   -- `ConfirmSmoother::default()` and `ConfirmSmoother::new()`: the first expected tag is 1
@@ -30,6 +36,9 @@ def smootherStep (legacy : Bool) (s : Option St) (toks : List String) : Option S
     match n.toNat? with
     | some k => (some (Smoother.new k), ["ok"])
     | none => (s, ["bad-op"])
+  -- `collect` / `extend`: the whole output, gathered into a Vec by the caller
+  | ["proc", k, t, m, "collect"] => smootherStepAll legacy s k t m
+  | ["proc", k, t, m, "extend"] => smootherStepAll legacy s k t m
   | ["proc", k, t, m, "all"] =>
     match s, parseKind k, t.toNat?, parseMult m with
     | some st, some kind, some tag, some mult =>
